@@ -206,6 +206,43 @@ def enum_case(cid, rng, generic):
                 meta={"what": "enum %s generic=%s" % (kinds, generic)})
 
 
+def handwritten_ops_case(cid, rng, n, named, generic):
+    """`Sum`/`Product` derived next to HAND-WRITTEN `Add`/`Mul` impls of the type (the documentation only requires that the
+    type implements `Add`/`Mul`): the result is the fold with the type's own operator from the field-wise empty sum/product,
+    whatever that operator does."""
+    fns = ["f%d" % i for i in range(n)]
+    ty = "T" if generic else "Tag"
+    g = "<T>" if generic else ""
+    inst = "H<Tag>" if generic else "H"
+    decl = ("pub struct H%s { %s }" % (g, ", ".join("pub %s: %s" % (f, ty) for f in fns))) if named else ("pub struct H%s(%s);" % (g, ", ".join("pub " + ty for _ in fns)))
+    acc = (lambda v, i: "%s.%s" % (v, fns[i])) if named else (lambda v, i: "%s.%d" % (v, i))
+
+    def build(vals):
+        return ("H { %s }" % ", ".join("%s: %s" % (f, v) for f, v in zip(fns, vals))) if named else "H(%s)" % ", ".join(vals)
+    items = ["#[derive(Debug, Clone, derive_more::Sum, derive_more::Product)]", decl]
+    for tr, m, code in (("Add", "add", "hadd"), ("Mul", "mul", "hmul")):
+        body = build(["Tag(mix(\"%s\", %s.0, %s.0))" % (code, acc("self", i), acc("r", i)) for i in range(n)])
+        items.append("impl ::core::ops::%s for %s { type Output = %s; fn %s(self, r: %s) -> %s { %s } }" % (tr, inst, inst, m, inst, inst, body))
+    out = []
+    nexp = 0
+    for tr, code, zero in (("sum", "hadd", "SUM_ZERO"), ("product", "hmul", "PRODUCT_ONE")):
+        for k in range(0, 4):
+            rows = [[rng.randrange(5000 + 100 * j, 5100 + 100 * j) for _ in range(n)] for j in range(k)]
+            vec = "vec![%s]" % ", ".join(build(["Tag(%d)" % v for v in r]) for r in rows) if rows else "Vec::<%s>::new()" % inst
+            wants = []
+            for i in range(n):
+                e = zero
+                for r in rows:
+                    e = "mix(\"%s\", %s, %d)" % (code, e, r[i])
+                wants.append(e)
+            out.append("{ let v: Vec<%s> = %s; let r: %s = v.into_iter().%s();" % (inst, vec, inst, tr))
+            out.append("  cmp(\"H.%s%d\", &format!(\"{:?}\", vec![%s]), &format!(\"{:?}\", vec![%s])); }" % (
+                tr, k, ", ".join("%s.0" % acc("r", i) for i in range(n)), ", ".join(wants)))
+            nexp += 1
+    return Case(cid, ("struct-handwritten-ops", "named" if named else "tuple", n, "generic" if generic else "concrete"), "\n".join(items), "\n".join(out), expect=nexp,
+                meta={"what": "Sum/Product next to hand-written Add/Mul on %s" % decl})
+
+
 def run(ctx):
     rng = ctx.rng
     cases = []
@@ -219,6 +256,13 @@ def run(ctx):
             k += 1
     for i in range(ctx.pick(160, 2400)):
         cases.append(enum_case("e%d" % i, rng, generic=(i % 3 == 0)))
+    hk = 0
+    for rep in range(ctx.pick(1, 6)):
+        for named in (False, True):
+            for n in (1, 2, 3):
+                for generic in (False, True):
+                    cases.append(handwritten_ops_case("h%d" % hk, rng, n, named, generic))
+                    hk += 1
     ctx.rule = ("types: tuple/named structs with 1-4 Tag fields (concrete and generic, raw-identifier names), enums with 1-4 variants drawn from tuple(0-3)/named(0-2)/unit; "
                 "all 24 operator derives, scalar and forward Mul-likes, every ordered pair of variants, iterators of length 0-3; "
                 "distinct = distinct (kind, field layout, arity, genericity, variant-kind set) tuples; every case applies several operators so none is trivial")
